@@ -2,7 +2,7 @@
 from vf.driver import contract_units
 
 LEVEL = "proof"
-MODULES = ["contracts.c_access", "contracts.c_engine"]
+MODULES = ["contracts.c_access", "contracts.c_engine", "contracts.c_request"]
 EXPLANATION = ("Each handler that can change an object's state, or use it cryptographically, is "
                "proved over a symbolic stored object (every class, state, mask) and a symbolic "
                "request: every state assignment is an allowed lifecycle step, every cryptographic "
